@@ -333,18 +333,21 @@ where
                     ];
                     if let Some((_, default)) = defaults.iter().flatten().find(|(name, _)| {
                         name.eq_ignore_span(&prop_name)
-                            || if let (
-                                PropName::Ident(IdentName { sym: a, .. }),
-                                PropName::Str(Str { value: b, .. }),
-                            )
-                            | (
-                                PropName::Str(Str { value: a, .. }),
-                                PropName::Ident(IdentName { sym: b, .. }),
-                            ) = (&**name, &prop_name)
-                            {
-                                a == b
-                            } else {
-                                false
+                            || match (&**name, &prop_name) {
+                                (
+                                    PropName::Ident(IdentName { sym: a, .. }),
+                                    PropName::Str(Str { value: b, .. }),
+                                )
+                                | (
+                                    PropName::Str(Str { value: a, .. }),
+                                    PropName::Ident(IdentName { sym: b, .. }),
+                                ) => a == b,
+                                // `1` and `'1'` are the same key, too
+                                (PropName::Num(num), PropName::Str(Str { value, .. }))
+                                | (PropName::Str(Str { value, .. }), PropName::Num(num)) => {
+                                    num.value.to_string() == **value
+                                }
+                                _ => false,
                             }
                     }) {
                         let default = match default {
